@@ -488,24 +488,41 @@ fn run_entry(i: usize, sc: &Scenario, maps: &Maps, out: &mut Vec<Value>, checks:
 pub fn main(args: &[String]) -> i32 {
     silence_panics();
     let seed: u64 = std::env::var("VERIF_SEED").ok().and_then(|s| s.parse().ok()).unwrap_or(0);
-    let scenarios: Vec<Scenario> = read_ndjson(&args[0]).into_iter().map(|v| serde_json::from_value(v).expect("scenario shape")).collect();
     let maps = maps(seed);
-    let n = scenarios.len();
-    let res = par_map(n, n_threads(), |i| {
-        let mut out = Vec::new();
-        let mut checks = 0;
-        if scenarios[i].aspect == "setters" {
-            run_setters(i, &scenarios[i], &maps, &mut out, &mut checks);
-        } else {
-            run_entry(i, &scenarios[i], &maps, &mut out, &mut checks);
-        }
-        (checks, out)
-    });
+    // streamed in chunks: the thorough scenario files have millions of lines
+    use std::io::BufRead;
+    let file = std::io::BufReader::new(std::fs::File::open(&args[0]).expect("scenario file"));
+    let mut lines = file.lines();
+    let mut n = 0usize;
     let mut checks = 0;
-    let mut mism = Vec::new();
-    for (c, m) in res {
-        checks += c;
-        mism.extend(m);
+    let mut mism: Vec<Value> = Vec::new();
+    let mut samples: Vec<Value> = Vec::new();
+    loop {
+        let chunk: Vec<Scenario> = lines.by_ref().take(100_000).map(|l| serde_json::from_str(&l.expect("readable line")).expect("scenario shape")).collect();
+        if chunk.is_empty() {
+            break;
+        }
+        let base = n;
+        n += chunk.len();
+        if samples.len() < 3 {
+            samples.extend(chunk.iter().filter(|s| s.calls.len() >= 2).take(3 - samples.len()).map(|s| json!({"aspect": s.aspect, "calls": s.calls, "entry": s.entry})));
+        }
+        let res = par_map(chunk.len(), n_threads(), |j| {
+            let mut out = Vec::new();
+            let mut checks = 0;
+            if chunk[j].aspect == "setters" {
+                run_setters(base + j, &chunk[j], &maps, &mut out, &mut checks);
+            } else {
+                run_entry(base + j, &chunk[j], &maps, &mut out, &mut checks);
+            }
+            (checks, out)
+        });
+        for (c, m) in res {
+            checks += c;
+            if mism.len() < 5000 {
+                mism.extend(m);
+            }
+        }
     }
     let mut by: BTreeMap<String, u64> = BTreeMap::new();
     for m in &mism {
@@ -526,7 +543,7 @@ pub fn main(args: &[String]) -> i32 {
             records.push(r);
         }
     }
-    let samples: Vec<Value> = scenarios.iter().filter(|s| s.calls.len() >= 2).take(3).map(|s| json!({"aspect": s.aspect, "calls": s.calls, "entry": s.entry})).collect();
+    let samples: Vec<Value> = samples;
     let out = json!({"scenarios": n, "checks": checks, "mismatches": mism.len(), "by_class": by, "records": records, "samples": samples});
     std::fs::write(&args[1], serde_json::to_string_pretty(&out).unwrap()).unwrap();
     println!("builders-replay: scenarios={} checks={} mismatches={}", n, checks, mism.len());
